@@ -94,6 +94,29 @@ def run_case(case):
             sim.dt = 0.05
             sim.ri_ias15.min_dt = r.choice([1e-2, 3e-2, 1e-3])
             counters['ias15_min_dt_cases'] = counters.get('ias15_min_dt_cases', 0) + 1
+        if integ == 'trace' and r.random() < 0.45:
+            # an eccentric planet close to pericentre: the steps around it are handed to the pericentre sub-integration (BS or IAS15, which
+            # keep their own sub-step sizes); the full step before a shortened last step is then one of those
+            sim = rebound.Simulation()
+            sim.add(m=1.0)
+            sim.add(m=1e-4, a=1.0, e=r.uniform(0.85, 0.97), f=r.uniform(-0.6, 0.6))
+            if r.random() < 0.5:
+                sim.add(m=1e-4, a=4.0, e=0.1, f=r.uniform(0, 6))
+            sim.move_to_com()
+            sim.integrator = 'trace'
+            sim.dt = r.choice([0.01, 0.02, 0.04])
+            sim.ri_trace.peri_mode = r.choice(['FULL_IAS15', 'FULL_IAS15', 'FULL_BS', 'PARTIAL_BS'])
+            counters['trace_pericentre_cases'] = counters.get('trace_pericentre_cases', 0) + 1
+        if integ == 'mercurius' and r.random() < 0.3:
+            # two planets inside each other's Hill sphere: every step runs the IAS15 encounter sub-integration
+            sim = rebound.Simulation()
+            sim.add(m=1.0)
+            sim.add(m=1e-4, a=1.0, f=0.0)
+            sim.add(m=1e-4, a=r.uniform(1.01, 1.04), f=r.uniform(-0.01, 0.01))
+            sim.move_to_com()
+            sim.integrator = 'mercurius'
+            sim.dt = r.choice([0.01, 0.03])
+            counters['mercurius_encounter_cases'] = counters.get('mercurius_encounter_cases', 0) + 1
         dt0 = sim.dt
         counters['calls'] += 1
         if kind == 'sequence':
